@@ -493,8 +493,14 @@ class VectorT {
 
         /// compute L1 (Manhattan) norm
         Scalar l1_norm() const {
+            const auto abs_val = [](const Scalar &x) {
+                return x < Scalar(0) ? Scalar(-x) : x;
+            };
             return std::accumulate(
-                    values_.cbegin() + 1, values_.cend(), values_[0]);
+                    values_.cbegin() + 1, values_.cend(), abs_val(values_[0]),
+                    [&abs_val](const Scalar &l, const Scalar &r) {
+                        return l + abs_val(r);
+                    });
         }
 
         /// compute l8_norm
@@ -539,7 +545,8 @@ class VectorT {
 
         /// return arithmetic mean
         Scalar mean() const {
-            return l1_norm()/DIM;
+            return std::accumulate(
+                    values_.cbegin() + 1, values_.cend(), values_[0])/DIM;
         }
 
         /// return absolute arithmetic mean
